@@ -271,9 +271,11 @@ func proofStr(p u.Proof) string {
 	return fmt.Sprintf("targets=%v proof=%s", p.Targets, hashesStr(p.Proof))
 }
 
-func cloneHashes(x []Hash) []Hash { return append([]Hash(nil), x...) }
+func cloneHashes(x []Hash) []Hash  { return append([]Hash(nil), x...) }
 func cloneU64(x []uint64) []uint64 { return append([]uint64(nil), x...) }
-func cloneProof(p u.Proof) u.Proof { return u.Proof{Targets: cloneU64(p.Targets), Proof: cloneHashes(p.Proof)} }
+func cloneProof(p u.Proof) u.Proof {
+	return u.Proof{Targets: cloneU64(p.Targets), Proof: cloneHashes(p.Proof)}
+}
 
 // PrepareBlock computes the block record (hashes, model proof) without applying it.
 func (w *World) PrepareBlock(b gen.Block) *BlockRec {
